@@ -1,13 +1,22 @@
 #!/usr/bin/env python3
 """Re-verify every sub-agent mutant in its scratch worktree and keep the confirmed ones under /verif/seeded."""
 import json, os, re, shutil, subprocess, sys
-props = sys.argv[1:] or ["C%02d" % i for i in range(1, 21)]
-for p in props:
-    for k in (1, 2):
-        wt, m = "/tmp/wt-%s" % p, "/tmp/wt-%s/_mutants/%d" % (p, k)
+from concurrent.futures import ThreadPoolExecutor
+args = sys.argv[1:]
+ROUND = 1
+if args and args[0] == "--round":
+    ROUND = int(args[1]); args = args[2:]
+props = args or ["C%02d" % i for i in range(1, 21)]
+# demos that need a non-default build to show the difference (confirmed by hand first)
+DEMO_ENV = {("C19", 2, 2): {"DEMO_GOARCH": "386"}, ("C19", 2, 3): {"DEMO_FLAGS": "-race"}}
+def one_prop(p):
+    for k in ((1, 2) if ROUND == 1 else (1, 2, 3)):
+        sub = "_mutants" if ROUND == 1 else "_mutants%d" % ROUND
+        wt, m = "/tmp/wt-%s" % p, "/tmp/wt-%s/%s/%d" % (p, sub, k)
+        env = dict(os.environ); env.update(DEMO_ENV.get((p, ROUND, k), {}))
         if not os.path.exists(m + "/patch.diff"):
             print("missing", m); continue
-        out = subprocess.run(["/verif/scripts/try_mutant.sh", wt, m], capture_output=True, text=True, errors="replace").stdout
+        out = subprocess.run(["/verif/scripts/try_mutant.sh", wt, m], capture_output=True, text=True, errors="replace", env=env).stdout
         mm = re.search(r"demo-clean: (.*?) \| demo-mutant: (.*?) \| suite-nonok: (.*?) \| FIRED: (.*)", out)
         if not mm:
             print("unparsed", m, out[:200]); continue
@@ -17,7 +26,7 @@ for p in props:
         print(p, k, "confirmed" if ok else "NOT-CONFIRMED", "fired:", fired_list, "| clean:", clean[:30], "| mut:", mut[:20], "| suite:", suite[:40])
         if not ok:
             continue
-        dst = "/verif/seeded/%s-%d" % (p, k)
+        dst = "/verif/seeded/%s-%d" % (p, k) if ROUND == 1 else "/verif/seeded/%s-r%d-%d" % (p, ROUND, k)
         os.makedirs(dst, exist_ok=True)
         shutil.copy(m + "/patch.diff", dst + "/patch.diff")
         shutil.copy(m + "/demo_test.go", dst + "/demo_test.go")
@@ -31,6 +40,8 @@ for p in props:
             "what": notes.strip().split("\n\n")[0][:600],
             "needs_to_manifest": "see notes.md",
             "demo_placement": place.group(1) if place else "see first comment of demo_test.go",
+            "demo_env": DEMO_ENV.get((p, ROUND, k), {}),
+            "round": ROUND,
             "expected_to_fire": sorted(set(fired_list + ([p] if p in fired_list else []))),
             "confirmed_by_me": {
                 "repo_suite_with_change": "go build ./... && go test -vet=off -count=1 ./... : all packages ok",
@@ -41,3 +52,6 @@ for p in props:
             },
         }
         json.dump(meta, open(dst + "/meta.json", "w"), indent=1)
+
+with ThreadPoolExecutor(max_workers=6) as ex:
+    list(ex.map(one_prop, props))
